@@ -349,6 +349,46 @@ class Ctx:
         """A proof obligation or a correspondence that no longer checks."""
         self.brokens.append({"kind": kind, "what": what, "detail": detail, "replay": replay})
 
+    def dependency(self, other, why):
+        """This property's theorems ASSUME a mechanism that is the subject of a sibling property `other`
+        (e.g. C07's statuses reach the API through the leader-aware updater of C09). The assumption is
+        discharged by running the sibling's check on the same tree and tier: a violation it reports
+        (with its concrete replay, if it found one) is a violation of this property's end-to-end claim.
+        Known findings of the sibling are the sibling's business and are not repeated here.
+        VERIF_NO_DEPS=1 (set for the nested run) prevents recursion."""
+        self.deps = getattr(self, "deps", [])
+        if os.environ.get("VERIF_NO_DEPS") == "1":
+            return
+        env = dict(os.environ, VERIF_NO_DEPS="1", VERIF_EVIDENCE_SUFFIX=f".dep-of-{self.prop}",
+                   VERIF_SEED=str(self.seed))
+        try:
+            rc, out, err = sh([os.path.join(VERIF, "check"), other, "--tier", self.tier], cwd=VERIF, env=env,
+                              timeout=3600)
+        except subprocess.TimeoutExpired:
+            self.broken(f"dependency check {other} timed out", kind="dependency")
+            self.deps.append({"property": other, "why": why, "exit": "timeout"})
+            return
+        vio = [l for l in out.splitlines() if l.startswith("VIOLATION")]
+        self.deps.append({"property": other, "why": why, "exit": rc, "violations": len(vio)})
+        if rc not in (0, 1):
+            self.broken(f"dependency check {other} failed to run (exit {rc}): {err[-300:]}", kind="dependency")
+        for l in vio:
+            parts = dict(x.split("=", 1) for x in l.split()[1:] if "=" in x)
+            rp = parts.get("replay", "")
+            inner = None
+            try:
+                inner = json.load(open(rp))
+            except Exception:
+                pass
+            if "no-failing-input-found" in l:
+                self.broken(f"assumed mechanism of {other} ({why}): its obligations/correspondence no longer check",
+                            kind="dependency", detail=json.dumps(inner)[:4000] if inner else l)
+            else:
+                sig = (inner or {}).get("signature", os.path.basename(rp))
+                self.finding(f"{self.prop}:via-{sig}",
+                             f"{why}: the check of {other} found a failing input ({(inner or {}).get('what', '')[:300]})",
+                             {"dependency": other, "replay_of_dependency": inner})
+
     def finish(self, coverage, assumptions=(), trusted=()):
         known = load_known().get(self.prop, [])
         violations = 0
@@ -390,6 +430,8 @@ class Ctx:
         cov["broken"] = [b["what"] for b in self.brokens]
         cov["known_findings_seen"] = sorted(printed_known)
         cov["translator_errors"] = getattr(self, "translator_errors", [])
+        if getattr(self, "deps", None):
+            cov["assumptions_discharged_by_sibling_checks"] = self.deps
         ev = {
             "property_id": self.prop,
             "tier": self.tier,
@@ -404,6 +446,9 @@ class Ctx:
         # (VERIF_REPO, used for seeded changes) writes its evidence under work/ instead.
         evdir = os.path.join(VERIF, "evidence") if os.path.realpath(REPO) == "/repo" else \
             os.path.join(WORK, "evidence-" + hashlib.sha1(REPO.encode()).hexdigest()[:8])
+        if os.environ.get("VERIF_EVIDENCE_SUFFIX"):
+            # nested run on behalf of another property (ctx.dependency): never touch the registered evidence file
+            evdir = os.path.join(WORK, "evidence" + os.environ["VERIF_EVIDENCE_SUFFIX"])
         os.makedirs(evdir, exist_ok=True)
         with open(os.path.join(evdir, f"{self.prop}.json"), "w") as f:
             json.dump(ev, f, indent=1, sort_keys=True)
